@@ -72,6 +72,11 @@ pub fn substance_from_formula(
         unit: molar_mass_unit,
     };
 
+    // An empty name is not a formula (it would have molar mass zero).
+    if formula.is_empty() {
+        return None;
+    }
+
     let mut iter = TokenIterator::new(formula).peekable();
     while let Some(token) = iter.next() {
         match token {
